@@ -94,8 +94,11 @@ func randomDoc(c *lib.Ctx) ([]string, string) {
 			term()
 		}
 		switch c.Rand.Intn(5) {
-		case 0, 1: // an isolated documented command word
+		case 0: // an isolated documented command word
 			w := words[c.Rand.Intn(len(words))]
+			add(w, w)
+		case 1: // ... or a completable prefix
+			w := prefixes[c.Rand.Intn(len(prefixes))]
 			add(w, w)
 		case 2: // empty line
 		default:
@@ -212,25 +215,7 @@ func runScript(c *lib.Ctx, emptyDir string, script []op) (trace, error) {
 			ev.Cls = hoverClass(m.Result)
 		default:
 			ev.Ok = true
-			var items []lspItem
-			if json.Unmarshal(m.Result, &items) != nil {
-				ev.Cls = "malformed"
-				break
-			}
-			ev.Cls = "items"
-			var labels []string
-			for i, it := range items {
-				labels = append(labels, it.Label)
-				if it.TextEdit == nil || (i > 0 && it.TextEdit.Range != items[0].TextEdit.Range) {
-					ev.Cls = "malformed"
-					break
-				}
-			}
-			ev.Cmp = cmpRec{H: labelHash(labels), N: len(items)}
-			if len(items) > 0 && ev.Cls == "items" {
-				r := items[0].TextEdit.Range
-				ev.Cmp.Rg = [4]int{r.Start.Line, r.Start.Character, r.End.Line, r.End.Character}
-			}
+			ev.Cls, ev.Cmp = projectCompletion(m.Result)
 		}
 		tr.Ev = append(tr.Ev, ev)
 		return "ok"
@@ -253,16 +238,7 @@ func runScript(c *lib.Ctx, emptyDir string, script []op) (trace, error) {
 		default:
 			ev.L, ev.C = o.L, o.C
 			if d, ok := cur[o.URI]; ok && o.Op == "completion" {
-				off := 0
-				for k := 0; ; k++ { // every character boundary of the text
-					r := cp.at(d.text, off)
-					ev.At = append(ev.At, atEntry{H: labelHash(r.Labels), N: len(r.Labels), Rf: r.From, Rt: r.To})
-					if off >= len(d.text) {
-						break
-					}
-					_, size := decodeRune(d.text[off:])
-					off += size
-				}
+				ev.At = atTable(cp, d.text)
 			}
 			tr.Ev = append(tr.Ev, ev)
 			kinds[id] = o.Op
@@ -298,10 +274,47 @@ func runScript(c *lib.Ctx, emptyDir string, script []op) (trace, error) {
 	return tr, nil
 }
 
+// projectCompletion projects a completion result: "items" (a list whose edits all carry one range)
+// or "malformed"; hash and number of the labels; the range of the edits.
+func projectCompletion(result json.RawMessage) (string, cmpRec) {
+	var items []lspItem
+	if json.Unmarshal(result, &items) != nil {
+		return "malformed", cmpRec{}
+	}
+	var labels []string
+	for i, it := range items {
+		labels = append(labels, it.Label)
+		if it.TextEdit == nil || (i > 0 && it.TextEdit.Range != items[0].TextEdit.Range) {
+			return "malformed", cmpRec{H: labelHash(labels), N: len(items)}
+		}
+	}
+	cmp := cmpRec{H: labelHash(labels), N: len(items)}
+	if len(items) > 0 {
+		r := items[0].TextEdit.Range
+		cmp.Rg = [4]int{r.Start.Line, r.Start.Character, r.End.Line, r.End.Character}
+	}
+	return "items", cmp
+}
+
+// atTable: the real completer at every character boundary of text.
+func atTable(cp *completer, text string) []atEntry {
+	var out []atEntry
+	off := 0
+	for {
+		r := cp.at(text, off)
+		out = append(out, atEntry{H: labelHash(r.Labels), N: len(r.Labels), Rf: r.From, Rt: r.To})
+		if off >= len(text) {
+			return out
+		}
+		_, size := decodeRune(text[off:])
+		off += size
+	}
+}
+
 // isReplyComplaint: reasons after which the walk continues (see TraceLspServer Resp).
 func isReplyComplaint(why string) bool {
 	switch why {
-	case "error-reply-on-known-document", "hover", "completion", "completion-malformed", "crlf-linestart:hover", "crlf-linestart:completion", "at-table-mismatch":
+	case "error-reply-on-known-document", "hover", "completion", "completion-malformed", "completion-at-normalised-position", "crlf-linestart:hover", "crlf-linestart:completion", "at-table-mismatch":
 		return true
 	}
 	return false
@@ -327,6 +340,19 @@ func recordSessions(c *lib.Ctx, emptyDir string) ([]trace, error) {
 		{Op: "hover", URI: "u1", Sym: []string{}, L: 1, C: 0},
 		{Op: "completion", URI: "u1", Sym: []string{}, L: 1, C: 3, Drain: true},
 		{Op: "hover", URI: "u3", Sym: []string{}, L: 0, C: 0},
+	})
+	// directed: completion with candidates at positions the server has to normalise: past the end
+	// of an LF line, of a CR LF line, of the document, and between the halves of a surrogate pair
+	scripts = append(scripts, []op{
+		{Op: "open", URI: "u1", Sym: []string{"ech", "LF", "a", "a", "a"}, Text: "ech\nfoo"},
+		{Op: "completion", URI: "u1", Sym: []string{}, L: 0, C: 10},
+		{Op: "completion", URI: "u1", Sym: []string{}, L: 1, C: 9},
+		{Op: "completion", URI: "u1", Sym: []string{}, L: 7, C: 0, Drain: true},
+		{Op: "change", URI: "u1", Sym: []string{"$pa", "CR", "LF", "A", "LF", "pu"}, Text: "$pa\r\n😀\npu"},
+		{Op: "completion", URI: "u1", Sym: []string{}, L: 0, C: 5},
+		{Op: "completion", URI: "u1", Sym: []string{}, L: 1, C: 1},
+		{Op: "completion", URI: "u1", Sym: []string{}, L: 2, C: 6},
+		{Op: "completion", URI: "u1", Sym: []string{}, L: 2, C: 2},
 	})
 	// directed: bursts of changes of one document without waiting (publications race in the server)
 	for i := c.Pick(20, 80); i > 0; i-- {
